@@ -2,7 +2,7 @@
    points, in IDEAL ARITHMETIC over Q (nibabel/streamlines/tractogram.py:
      LazyTractogram.__init__ / from_tractogram / from_data_func  -> lz_of_tractogram / lz_of_data_func
      .streamlines (applies _affine_to_apply unless it is exactly the identity) -> lz_streamlines
-     .data / __iter__ (items: data_func() items as they are when _data is set) -> lz_items
+     .data / __iter__ (items; with _data set: data_func() items with the pending affine) -> lz_items
      apply_affine(affine, lazy=True), to_world(lazy=True)                      -> lz_apply_affine / lz_to_world
      TrkFile.load(lazy_load=True), TckFile.save / TrkFile.save on a lazy tractogram -> lz_load_trk, lz_saved_tck, lz_saved_trk).
    Definitions only. *)
@@ -38,10 +38,14 @@ Definition lz_streamlines (t : lazyt) : list (list pt) :=
   else map (map (aff_apply (lz_pending t))) (lz_raw t).
 
 (* iterating the tractogram (`for item in t`, what both save() methods do): item.streamline.
-   With _data set the items of data_func() are returned as they are; otherwise the items are
-   assembled from self.streamlines *)
+   With _data set (from_data_func) the items of data_func() are returned as they are when the
+   pending affine is exactly the identity, otherwise with the pending affine applied (since
+   commit 3c04c5b7); without _data the items are assembled from self.streamlines *)
 Definition lz_items (t : lazyt) : list (list pt) :=
-  if lz_has_data t then lz_raw t else lz_streamlines t.
+  if lz_has_data t then
+    (if aff_is_id (lz_pending t) then lz_raw t
+     else map (map (aff_apply (lz_pending t))) (lz_raw t))
+  else lz_streamlines t.
 
 (* apply_affine(affine, lazy=True): a copy whose pending affine is affine . pending and whose
    affine_to_rasmm is affine_to_rasmm . affine^-1 *)
